@@ -36,10 +36,33 @@ func (c *tableCtx) snapshot(extra []*Pattern) []string {
 			continue
 		}
 		seen[p.Raw] = true
-		path, _ := FixedWitness(p)
+		path, vals := FixedWitness(p)
 		for _, meth := range []string{"GET", "HEAD", "POST", "PUT", "DELETE", "PATCH", "CONNECT", "TRACE", "OPTIONS", "BOGUS"} {
 			o := c.probe(meth, path)
 			lines = append(lines, fmt.Sprintf("%s %s -> %s", meth, path, o.Key()))
+		}
+		// a second witness whose first parameter value runs into the literal that follows it ("x/a" for
+		// {id}/author): where such a path goes depends on how the literal tail is split into nodes
+		for i, t := range p.Tokens {
+			if t.Kind == PLit || t.Ignore || i+1 >= len(p.Tokens) || p.Tokens[i+1].Kind != PLit {
+				continue
+			}
+			next := p.Tokens[i+1].Text
+			v := vals[t.Name] + next[:min(2, len(next))]
+			if !t.Accepts(v) {
+				break
+			}
+			rich := map[string]string{}
+			for k, x := range vals {
+				rich[k] = x
+			}
+			rich[t.Name] = v
+			rp := p.Fill(rich)
+			for _, meth := range []string{"GET", "POST", "OPTIONS"} {
+				o := c.probe(meth, rp)
+				lines = append(lines, fmt.Sprintf("%s %s -> %s", meth, rp, o.Key()))
+			}
+			break
 		}
 	}
 	o := c.probe("OPTIONS", "*")
@@ -345,6 +368,24 @@ func genC17(r *Rng, idx int, tier string) *World {
 		somePattern := func() string {
 			if len(live) > 0 && r.Pct(60) {
 				return pick(r, live)
+			}
+			if len(live) > 0 && r.Pct(60) {
+				// a new pattern that shares nodes with a live one: same parameters (same names), another
+				// literal tail after a common prefix - creating its node would split the live route's node
+				if p, ok := ParsePattern(pick(r, live), w.Opts.Interceptors); ok && len(p.Tokens) > 1 {
+					last := p.Tokens[len(p.Tokens)-1]
+					if last.Kind == PLit && len(last.Text) >= 2 && last.Text[len(last.Text)-1] < 0x80 {
+						k := r.Range(1, len(last.Text)-1)
+						for k > 0 && last.Text[k-1] >= 0x80 {
+							k--
+						}
+						if k > 0 {
+							return strings.TrimSuffix(p.Raw, last.Text) + last.Text[:k] + pick(r, []string{"b", "batar", "d/e", "g"})
+						}
+					} else if last.Kind != PLit {
+						return p.Raw + pick(r, []string{"/b", "/abatar", "-g"})
+					}
+				}
 			}
 			return "/fresh/" + pick(r, litLeaf) + "/{id}"
 		}
